@@ -524,6 +524,46 @@ def large_cases(tier):
     return out
 
 
+def oob_case(case):
+    """An index outside the array "raises (and cannot be proven)": with checks on, IndexError; with errors ignored the access
+    runs, and the witness it records must violate at least one emitted constraint - if it satisfied them all, the outside
+    position would be provable. Arrays of any length (a long array may be looked up through another structure). Message or None."""
+    n, pos, write = case["n"], case["pos"], case["write"]
+    for ignore in (False, True):
+        ns = env.reset(ir.resolve_p(case["p"]), 16, 0)
+        arr = ns.ar.Array([ns.rt.PrivVal((7 * i + 3) % 23) if i % 3 != 1 else (7 * i + 3) % 23 for i in range(n)])
+        ix = ns.rt.PrivVal(pos)
+        if ignore:
+            ns.rt.ignore_errors(True)
+        try:
+            if write:
+                arr[ix] = ns.rt.PrivVal(5)
+            else:
+                arr[ix]
+            raised = False
+        except IndexError:
+            raised = True
+        finally:
+            ns.rt.ignore_errors(False)
+        what = "%s at secret position %d of an array of %d elements" % ("write" if write else "read", pos, n)
+        if not ignore and not raised:
+            return "%s was accepted" % what
+        if ignore and not raised and not r1cs.evaluate(ns.rec.snapshot()):
+            return "%s, run with errors ignored: the recorded witness satisfies all %d emitted constraints - the outside position is provable" % (what, len(ns.rec.cons))
+    return None
+
+
+def oob_shard(cases):
+    stats = core.Stats()
+    for case in cases:
+        msg = oob_case(case)
+        stats.case(case, True, ("outside-position:n%s" % ("<8" if case["n"] < 8 else "<64" if case["n"] < 64 else ">=64"),), sample_cap=1)
+        if msg:
+            stats.violations.append({"case": case, "msg": msg, "key": "oob"})
+            break
+    return stats
+
+
 def large_shard(cases):
     stats = core.Stats()
     for case in cases:
@@ -540,6 +580,8 @@ def replay(case):
         return search_case(case)[0]
     if case.get("part") == "nd":
         return nd_case(case)[0]
+    if case.get("part") == "oob":
+        return oob_case(case)
     return history_case(case)[0]
 
 
@@ -560,6 +602,10 @@ def run(ctx):
             for write in (False, True):
                 cases.append({"part": "search", "p": 67 if ctx.tier == "quick" or L < 5 else 131, "len": L, "mask": mask, "write": write})
     total.merge_json(core.run_shards("harness.checks.c15", "search_shard", [dict(cases=cases[i::16]) for i in range(16)]).to_json())
+    lens_o = [1, 2, 3, 7, 31, 63, 64, 65, 66, 70, 100, 127, 128, 130, 200] if ctx.tier == "quick" else list(range(1, 40)) + [63, 64, 65, 66, 67, 70, 71, 72, 99, 100, 101, 127, 128, 129, 130, 131, 200, 209, 255, 256, 257, 500, 1000, 1023]
+    oob = [{"part": "oob", "p": "bn128", "n": n_, "pos": pos, "write": w_} for n_ in lens_o for w_ in (False, True)
+           for pos in sorted(set(list(range(n_, n_ + (12 if ctx.tier == "quick" else 40))) + [-1, -n_, 2 * n_, n_ * n_, n_ + 64]))]
+    total.merge_json(core.run_shards("harness.checks.c15", "oob_shard", [dict(cases=oob[i::16]) for i in range(16)]).to_json())
     big = large_cases(ctx.tier)
     total.merge_json(core.run_shards("harness.checks.c15", "large_shard", [dict(cases=big[i::8]) for i in range(8)]).to_json())
     ctx.stats = total
